@@ -61,6 +61,10 @@ class C14(Prop):
             key = t[0][0] if nkey == 1 else tuple(t[0][:nkey])
             yield Case('reshape', ('melt', key, None, 'variable', 'value', t))
             yield Case('reshape', ('melt', None, tuple(t[0][nkey:]), 'variable', 'value', t))
+            # variables listed in another order than the columns, or only some of them
+            vs = list(t[0][nkey:])
+            yield Case('reshape', ('melt', None, tuple(reversed(vs)), 'variable', 'value', t))
+            yield Case('reshape', ('melt', key, tuple(reversed(vs))[:max(1, len(vs) - 1)], 'variable', 'value', t))
             # variables / key given as field indices
             yield Case('reshape', ('melt', None, tuple(range(nkey, len(t[0]))), 'variable', 'value', t))
             yield Case('reshape', ('melt', 0 if nkey == 1 else tuple(range(nkey)), None, 'variable', 'value', t))
@@ -211,7 +215,16 @@ class C14(Prop):
             by_index_key = [tuple(r) for r in etl.melt(L(t), key=ki if len(ki) > 1 else ki[0])]
             # (with variables given as indices the variable column carries the indices as given)
             want_idx = [want[0]] + [w[:-2] + (vi[n % len(vi)], w[-1]) for n, w in enumerate(want[1:])] if vi else want
-            return codec.t_bool(by_name == want and by_index == want_idx and by_index_key == want)
+            # variables named in another order than the columns: rows come per variable in the order given, each with its own cell
+            rv = list(reversed(vi))
+            want_rev = [want[0]]
+            for r in t[1:]:
+                for i in rv:
+                    want_rev.append(tuple(r[j] for j in ki) + (t[0][i], r[i]))
+            by_rev = [tuple(r) for r in etl.melt(L(t), key=key, variables=[t[0][i] for i in rv])] if rv else want_rev
+            by_rev_nokey = [tuple(r) for r in etl.melt(L(t), variables=[t[0][i] for i in rv])] if rv else want_rev
+            return codec.t_bool(by_name == want and by_index == want_idx and by_index_key == want and by_rev == want_rev
+                                and by_rev_nokey == want_rev)
         if kind == 'capture_re':
             # capture applies re.search: the groups of the first match anywhere in the value
             import re
